@@ -9,6 +9,7 @@ import (
 	"fmt"
 	"math"
 	"math/rand"
+	"os"
 	"runtime/debug"
 	"sort"
 	"strings"
@@ -39,20 +40,25 @@ type e1Cfg struct {
 	Oracles      map[string]bool
 	Caps         []int
 	FinalRestore bool
+	DensePct     int  // percent of (unkeyed) histories that start from a dense multi-block layout with holes only beyond block 0
+	TailPct      int  // percent of restore cycles whose snapshot is taken while transactions commit (non-empty log tail)
+	Interlope    bool // C02: other transactions commit while the observed transaction is in flight
 }
 
 var allCaps = []int{1, 63, 64, 65, 1000, 16384, 16385, 40000}
 
-var allKinds = []Kind{KInt, KInt16, KInt32, KInt64, KUint, KUint16, KUint32, KUint64, KFloat32, KFloat64, KBool, KString, KStringCat, KEnum, KRecord, KRecordMerge, KInt64Mul}
+var allKinds = []Kind{KInt, KInt16, KInt32, KInt64, KUint, KUint16, KUint32, KUint64, KFloat32, KFloat64, KBool, KString, KStringCat, KEnum, KRecord, KRecordMerge, KInt64Mul, KStringMin}
 
 func colName(k Kind, n int) string {
 	base := map[Kind]string{KInt: "i", KInt16: "i16", KInt32: "i32", KInt64: "i64", KUint: "u", KUint16: "u16", KUint32: "u32", KUint64: "u64",
-		KFloat32: "f32", KFloat64: "f64", KBool: "b", KString: "s", KStringCat: "sc", KEnum: "e", KRecord: "r", KRecordMerge: "rm", KKey: "k", KInt64Mul: "im"}[k]
+		KFloat32: "f32", KFloat64: "f64", KBool: "b", KString: "s", KStringCat: "sc", KEnum: "e", KRecord: "r", KRecordMerge: "rm", KKey: "k", KInt64Mul: "im", KStringMin: "sm"}[k]
 	if n > 0 {
 		return fmt.Sprintf("%s%d", base, n)
 	}
 	return base
 }
+
+var replayVerbose = os.Getenv("VERIF_REPLAY") != "" && os.Getenv("VERIF_QUIET") == ""
 
 func oracleSet(names ...string) map[string]bool {
 	m := map[string]bool{}
@@ -63,26 +69,31 @@ func oracleSet(names ...string) map[string]bool {
 }
 
 type history struct {
-	w      *W
-	idx    int
-	cfg    e1Cfg
-	rng    *rand.Rand
-	g      *Gen
-	wd     *World
-	log    []string
-	caseID string
-	stats  map[string]int64
-	before *State // dump after the previous step
-	lastID map[uint32]uint64
-	nCols  map[Kind]int
-	failed bool
-	steps  int
+	w           *W
+	idx         int
+	cfg         e1Cfg
+	rng         *rand.Rand
+	g           *Gen
+	wd          *World
+	log         []string
+	caseID      string
+	stats       map[string]int64
+	before      *State // dump after the previous step
+	lastID      map[uint32]uint64
+	nCols       map[Kind]int
+	failed      bool
+	steps       int
+	interlopers bool
+	dirtyBefore bool // the pre-transaction dump is stale (another transaction committed meanwhile)
 }
 
 func (h *history) logf(format string, a ...any) {
 	s := fmt.Sprintf(format, a...)
 	if len(s) > 600 {
 		s = s[:600] + "..."
+	}
+	if replayVerbose {
+		fmt.Println("    | " + s)
 	}
 	h.log = append(h.log, s)
 	if len(h.log) > 60 {
@@ -114,7 +125,8 @@ func runHistory(w *W, idx int, cfg e1Cfg) {
 		caps = allCaps
 	}
 	capacity := caps[h.rng.Intn(len(caps))]
-	h.wd = newWorld(capacity, cfg.Twin, cfg.Replica)
+	h.interlopers = cfg.Interlope && h.rng.Intn(2) == 0
+	h.wd = newWorld(capacity, cfg.Twin && !h.interlopers, cfg.Replica) // the twin cannot follow offsets handed out beside in-flight reservations
 	h.wd.Keys = h.g.keys
 	defer h.wd.Close()
 	defer func() {
@@ -126,7 +138,11 @@ func runHistory(w *W, idx int, cfg e1Cfg) {
 		}
 	}()
 	h.setup()
-	for h.steps = 0; h.steps < cfg.Steps && !h.failed; h.steps++ {
+	nsteps := cfg.Steps
+	if h.wd.M.Focus != nil && nsteps > 40 {
+		nsteps = 40 // dense layouts: every step ranges over tens of thousands of rows
+	}
+	for h.steps = 0; h.steps < nsteps && !h.failed; h.steps++ {
 		h.step()
 	}
 	if !h.failed {
@@ -198,7 +214,10 @@ func (h *history) setup() {
 			h.newTrigger()
 		}
 	}
-	if h.wd.M.KeyCol == "" && h.rng.Intn(100) < cfg.LayoutPct {
+	switch {
+	case h.wd.M.KeyCol == "" && h.rng.Intn(100) < cfg.DensePct:
+		h.denseLayout()
+	case h.rng.Intn(100) < cfg.LayoutPct:
 		h.layout()
 	}
 	h.before = dumpState(h.wd.P, h.wd.M.view(h.wd.Keys))
@@ -234,7 +253,7 @@ func (h *history) newIndex() {
 func (h *history) newSorted() {
 	var cols []ColSpec
 	for _, c := range h.wd.M.Cols {
-		if c.Kind == KString || c.Kind == KStringCat || c.Kind == KEnum {
+		if c.Kind.PlainString() || c.Kind == KEnum {
 			cols = append(cols, c)
 		}
 	}
@@ -307,6 +326,10 @@ func (h *history) layout() {
 			}
 		}
 	}
+	keyed := h.wd.M.KeyCol != ""
+	if keyed && n > 16390 {
+		n = 16390 + h.rng.Intn(200) // two blocks are enough for keyed layouts
+	}
 	for _, c := range []*column.Collection{h.wd.P, h.wd.T} {
 		if c == nil {
 			continue
@@ -314,12 +337,20 @@ func (h *history) layout() {
 		isP := c == h.wd.P
 		c.Query(func(txn *column.Txn) error {
 			for i := 0; i < n; i++ {
-				off, err := txn.Insert(func(r column.Row) error {
+				var off uint32
+				fn := func(r column.Row) error {
+					off = r.Index()
 					for ci, cs := range cols {
 						writeCell(txn, r, cs, Write{Col: cs.Name, V: vals[ci][i%8]})
 					}
 					return nil
-				})
+				}
+				var err error
+				if keyed {
+					err = txn.InsertKey(fmt.Sprintf("L%d", i), fn)
+				} else {
+					_, err = txn.Insert(fn)
+				}
 				if err != nil {
 					panic(err)
 				}
@@ -328,6 +359,9 @@ func (h *history) layout() {
 						h.violate("insert", fmt.Sprintf("layout insert %d received live offset %d", i, off), "")
 					}
 					h.wd.M.Live[off] = true
+					if keyed {
+						h.wd.M.Cells[h.wd.M.KeyCol][off] = Val{S: fmt.Sprintf("L%d", i)}
+					}
 					for ci, cs := range cols {
 						if cs.Kind == KBool {
 							h.wd.M.Cells[cs.Name][off] = Val{B: 1}
@@ -351,8 +385,12 @@ func (h *history) layout() {
 		})
 		h.feedReplica()
 	}
-	for off := range h.wd.M.Live {
+	for _, off := range h.wd.M.liveSorted() {
 		if !keep[off] {
+			if keyed && off >= 16384 && len(h.wd.Keys) < 60 {
+				// deleted keys of the second block are looked up in every later dump: they must stay gone
+				h.wd.Keys = append(append([]string{}, h.wd.Keys...), h.wd.M.Cells[h.wd.M.KeyCol][off].S)
+			}
 			delete(h.wd.M.Live, off)
 			for _, cs := range h.wd.M.Cols {
 				delete(h.wd.M.Cells[cs.Name], off)
@@ -360,8 +398,95 @@ func (h *history) layout() {
 		}
 	}
 	h.wd.cutTriggers()
+	if keyed {
+		h.stats["keyed_layouts"]++
+	}
 	h.stats["layouts"]++
 	h.logf("layout: inserted %d rows (%s), deleted all but %d", n, colNames(cols), len(h.wd.M.Live))
+}
+
+// denseLayout: blocks stay densely filled and the only free offsets lie beyond block 0, so that
+// later inserts REUSE offsets in blocks >= 1 (offset reuse normally happens at the lowest free
+// offset). Values are dumped only for a focus set: the holes, their neighbours, a random sample
+// and every row inserted afterwards; Range / Count are still checked over all rows.
+func (h *history) denseLayout() {
+	sizes := []int{16384 + 300, 33000, 20032}
+	n := sizes[h.rng.Intn(len(sizes))]
+	cols := h.g.pickCols(h.wd.M, h.cfg.Txn, 2+h.rng.Intn(3))
+	vals := make([][]Val, len(cols))
+	for ci, c := range cols {
+		vals[ci] = make([]Val, 8)
+		for j := range vals[ci] {
+			vals[ci][j] = h.g.value(c)
+			if c.Kind.Stringy() && len(vals[ci][j].S) > 40 {
+				vals[ci][j].S = vals[ci][j].S[:40]
+			}
+		}
+	}
+	holes := map[uint32]bool{}
+	for len(holes) < 40 {
+		holes[uint32(16384+h.rng.Intn(n-16384))] = true
+	}
+	focus := map[uint32]bool{}
+	for o := range holes {
+		focus[o], focus[o-1], focus[o+1] = true, true, true
+	}
+	for i := 0; i < 60; i++ {
+		focus[uint32(h.rng.Intn(n))] = true
+	}
+	h.wd.M.Focus = focus
+	for _, c := range []*column.Collection{h.wd.P, h.wd.T} {
+		if c == nil {
+			continue
+		}
+		isP := c == h.wd.P
+		c.Query(func(txn *column.Txn) error {
+			for i := 0; i < n; i++ {
+				off, err := txn.Insert(func(r column.Row) error {
+					for ci, cs := range cols {
+						writeCell(txn, r, cs, Write{Col: cs.Name, V: vals[ci][i%8]})
+					}
+					return nil
+				})
+				if err != nil {
+					panic(err)
+				}
+				if isP {
+					h.wd.M.Live[off] = true
+					for ci, cs := range cols {
+						if cs.Kind == KBool {
+							h.wd.M.Cells[cs.Name][off] = Val{B: 1}
+						} else {
+							h.wd.M.Cells[cs.Name][off] = vals[ci][i%8]
+						}
+					}
+				}
+			}
+			return nil
+		})
+		h.feedReplica()
+		c.Query(func(txn *column.Txn) error {
+			sorted := make([]uint32, 0, len(holes))
+			for o := range holes {
+				sorted = append(sorted, o)
+			}
+			sort.Slice(sorted, func(i, j int) bool { return sorted[i] < sorted[j] })
+			for _, o := range sorted {
+				txn.DeleteAt(o)
+			}
+			return nil
+		})
+		h.feedReplica()
+	}
+	for o := range holes {
+		delete(h.wd.M.Live, o)
+		for _, cs := range h.wd.M.Cols {
+			delete(h.wd.M.Cells[cs.Name], o)
+		}
+	}
+	h.wd.cutTriggers()
+	h.stats["dense_layouts"]++
+	h.logf("dense layout: %d rows (%s), 40 holes beyond block 0, %d focused rows", n, colNames(cols), len(focus))
 }
 
 // feedReplica replays every commit the primary emitted since the last call on the replica
@@ -385,7 +510,19 @@ func (h *history) feedReplica() []emitted {
 	return out
 }
 
-func (h *history) liveRows() []uint32 { return h.wd.M.liveSorted() }
+func (h *history) liveRows() []uint32 {
+	rows := h.wd.M.liveSorted()
+	if f := h.wd.M.Focus; f != nil {
+		out := rows[:0]
+		for _, r := range rows {
+			if f[r] {
+				out = append(out, r)
+			}
+		}
+		return out
+	}
+	return rows
+}
 
 func (h *history) step() {
 	cfg := h.cfg
@@ -461,6 +598,12 @@ func (h *history) txnStep() {
 	if cfg.InFlight && h.rng.Intn(3) == 0 {
 		sv := m.view(h.wd.Keys)
 		observe = func(afterOp int, reserved []uint32) {
+			if h.interlopers && h.rng.Intn(3) == 0 {
+				h.interlope(&spec, reserved)
+			}
+			if h.dirtyBefore {
+				return // another transaction committed meanwhile: the pre-transaction dump is no longer the reference
+			}
 			done := make(chan *State)
 			go func() { done <- dumpState(h.wd.P, sv) }() // a second goroutine looks while the body is blocked
 			st := <-done
@@ -487,6 +630,14 @@ func (h *history) txnStep() {
 		}
 	}
 	h.wd.cutTriggers()
+	h.dirtyBefore = false
+	if h.interlopers && observe == nil && h.rng.Intn(4) == 0 {
+		observe = func(afterOp int, reserved []uint32) {
+			if h.rng.Intn(2) == 0 {
+				h.interlope(&spec, reserved)
+			}
+		}
+	}
 	rep := h.wd.execTxn(h.wd.P, &spec, true, observe)
 	h.logf("%s => %v", spec.String(), rep.Err)
 	h.stats["txns"]++
@@ -546,6 +697,24 @@ func (h *history) txnStep() {
 		}
 	}
 	o := h.cfg.Oracles
+	if replayVerbose && m.KeyCol != "" {
+		line := "    |   keys real/model:"
+		for _, k := range h.wd.Keys {
+			real := int64(-1)
+			h.wd.P.QueryKey(k, func(r column.Row) error { real = int64(r.Index()); return nil })
+			mo := int64(-1)
+			if off, ok := m.keyOffset(k); ok {
+				mo = int64(off)
+			}
+			if real != -1 || mo != -1 {
+				line += fmt.Sprintf(" %q:%d/%d", k, real, mo)
+			}
+		}
+		fmt.Println(line)
+	}
+	if replayVerbose && len(rep.KeyDiffs)+len(rep.InsDiffs)+len(rep.OwnReads) > 0 {
+		fmt.Println("    |   executor notes:", rep.KeyDiffs, rep.InsDiffs, rep.OwnReads)
+	}
 	if o["own-reads"] && len(rep.OwnReads) > 0 {
 		h.violate("own-reads", rep.OwnReads[0]+" in "+spec.String(), "")
 		return
@@ -559,6 +728,87 @@ func (h *history) txnStep() {
 		return
 	}
 	h.check(&spec, trigWant, !committed)
+}
+
+// interlope commits a small transaction of "another client" while the observed transaction is
+// in flight: inserts and updates of rows the observed transaction does not touch. It is applied
+// to the model at once (it is committed). Its inserts must not receive an offset the in-flight
+// transaction holds.
+func (h *history) interlope(inflight *TxnSpec, reserved []uint32) {
+	m := h.wd.M
+	busy := map[uint32]bool{}
+	for _, o := range inflight.Ops {
+		if o.T == "at" || o.T == "del" || o.HasOff {
+			busy[o.Off] = true
+			if o.HasOff {
+				busy[o.GotOff] = true
+			}
+		}
+		if o.Key != "" {
+			if off, ok := m.keyOffset(o.Key); ok {
+				busy[off] = true
+			}
+		}
+	}
+	var live []uint32
+	for _, r := range h.liveRows() {
+		if !busy[r] {
+			live = append(live, r)
+		}
+	}
+	opts := h.cfg.Txn
+	opts.PDelete, opts.PKeyOps, opts.PFailInsert, opts.PAbort, opts.MaxOps = 0, 0, 0, 0, 2
+	if m.KeyCol != "" {
+		opts.PInsert = 0 // keyed creators would race with the in-flight transaction's keys (KF-KEY-CHECK-THEN-ACT)
+	}
+	t2 := h.g.genTxn(m, live, opts)
+	var kept []Op
+	for _, o := range t2.Ops {
+		if o.T == "at" || o.T == "ins" {
+			// boundary: no creating / re-keying key operation beside an in-flight transaction
+			// (two-transaction form of KF-KEY-CHECK-THEN-ACT, probed by the E2 key scenarios)
+			var ws []Write
+			for _, w := range o.W {
+				if w.Col != m.KeyCol {
+					ws = append(ws, w)
+				}
+			}
+			o.W = ws
+			kept = append(kept, o)
+		}
+	}
+	t2.Ops = kept
+	if len(t2.Ops) == 0 {
+		return
+	}
+	rep := h.wd.execTxn(h.wd.P, &t2, false, nil)
+	h.stats["interloper_txns"]++
+	if replayVerbose {
+		fmt.Printf("    |   interloper NoOpW: ")
+		for _, o := range t2.Ops {
+			fmt.Printf("%v ", o.NoOpW)
+		}
+		fmt.Println()
+	}
+	h.logf("  (meanwhile another client commits %s => %v)", t2.String(), rep.Err)
+	if rep.Panic != "" || rep.Err != nil {
+		h.violate("txn", fmt.Sprintf("transaction %s of another client failed while %s was in flight: %v %s", t2.String(), inflight.String(), rep.Err, rep.Panic), "")
+		return
+	}
+	for _, o := range t2.Ops {
+		if o.T == "ins" && o.HasOff {
+			for _, r := range reserved {
+				if r == o.GotOff && h.cfg.Oracles["live"] {
+					h.violate("insert", fmt.Sprintf("insert of another client received offset %d which the in-flight transaction %s holds", r, inflight.String()), "")
+				}
+			}
+			if m.Live[o.GotOff] && h.cfg.Oracles["live"] {
+				h.violate("insert", fmt.Sprintf("insert of another client received offset %d which is occupied by a live row", o.GotOff), "")
+			}
+		}
+	}
+	m.Apply(t2.Ops)
+	h.dirtyBefore = true
 }
 
 func cloneSpec(s TxnSpec) TxnSpec {
@@ -600,8 +850,12 @@ func inflightDiff(before, st *State, reserved []uint32, sv schemaView) (string, 
 	}
 	stripped.Count -= removed
 	stripped.TxnCount -= removed
-	if removed > 0 && cmpStates(before, &stripped, "before", "in-flight", sv) == "" {
-		return d, true
+	if removed > 0 {
+		d2 := cmpStates(before, &stripped, "before", "in-flight", sv)
+		if d2 == "" {
+			return d, true
+		}
+		return d + " | and, leaving aside the rows reserved by the in-flight inserts: " + d2, false
 	}
 	return d, false
 }
@@ -647,7 +901,7 @@ func (h *history) check(spec *TxnSpec, trigWant map[string][]TrigEvent, rolledBa
 		desc = spec.String()
 	}
 	// ---- change stream (C15) ----
-	if o["stream"] && spec != nil {
+	if o["stream"] && spec != nil && !h.dirtyBefore {
 		want := map[uint32]bool{}
 		if !rolledBack {
 			want = changedBlocks(spec.Ops)
@@ -703,7 +957,7 @@ func (h *history) check(spec *TxnSpec, trigWant map[string][]TrigEvent, rolledBa
 	}
 	st := dumpState(h.wd.P, sv)
 	h.stats["dumps"]++
-	if rolledBack && o["rollback"] {
+	if rolledBack && o["rollback"] && !h.dirtyBefore {
 		if d := cmpStates(h.before, st, "before", "after-rollback", sv); d != "" {
 			h.violate("rollback", fmt.Sprintf("%s returned an error but left a trace: %s", desc, d), "")
 			return
@@ -847,14 +1101,36 @@ func (h *history) restoreCycle(swap bool) {
 	m := h.wd.M
 	sv := m.view(h.wd.Keys)
 	h.feedReplica()
-	st := dumpState(h.wd.P, sv)
 	var buf bytes.Buffer
-	if err := h.wd.P.Snapshot(&buf); err != nil {
+	tail := 0
+	if h.rng.Intn(100) < h.cfg.TailPct {
+		// transactions commit while the snapshot is running (same goroutine, at the lock-free hook
+		// points): the snapshot carries a log tail and Restore has to replay it
+		budget := 1 + h.rng.Intn(3)
+		hook := func(point string, c *column.Collection, chunk uint32) {
+			if c == h.wd.P && budget > 0 && (point == "snapshot.recorderOpen" || point == "snapshot.beforeBlock" || point == "snapshot.beforeRecorderClose") {
+				budget--
+				before := len(h.wd.Log.commits)
+				h.txnQuiet()
+				tail += len(h.wd.Log.commits) - before
+			}
+		}
+		column.VerifHook.Store(&hook)
+	}
+	err := h.wd.P.Snapshot(&buf)
+	column.VerifHook.Store(nil)
+	if err != nil {
 		if o["restore"] {
 			h.violate("restore", "Snapshot failed: "+err.Error(), "")
 		}
 		return
 	}
+	if tail > 0 {
+		h.stats["restores_with_log_tail"]++
+	}
+	h.feedReplica()
+	h.wd.cutTriggers()
+	st := dumpState(h.wd.P, sv)
 	capacity := h.wd.Cap
 	if h.rng.Intn(2) == 0 {
 		capacity = allCaps[h.rng.Intn(len(allCaps))]
@@ -878,7 +1154,7 @@ func (h *history) restoreCycle(swap bool) {
 	rs := dumpState(c, sv)
 	h.stats["restores"]++
 	h.stats["restored_rows"] += int64(len(rs.Rows))
-	h.logf("snapshot (%d bytes) -> restore into capacity %d -> continue on the restored collection", buf.Len(), capacity)
+	h.logf("snapshot (%d bytes, %d commits logged while it ran) -> restore into capacity %d -> continue on the restored collection", buf.Len(), tail, capacity)
 	if o["restore"] {
 		if d := cmpStates(st, rs, "original", "restored", sv); d != "" {
 			h.violate("restore", d, "")
